@@ -3,6 +3,9 @@ import json, os, random, re
 import lib, observe
 
 
+ALT_CONFIGS = {"kotlin": [["kotlin.use_finalizers_not_cleaners=true"]], "js": [["js.abi=spec"]]}
+
+
 def pat_attr(p, n):
     if p["k"] == "none":
         return ""
@@ -60,6 +63,17 @@ def check_batch(rep, tag, batch, wd):
             refs[be] = None
         else:
             refs[be] = observe.symbol_refs(be, out)
+        # non-default configuration must not change WHICH symbols are referenced (other templates / code paths are taken)
+        for cfgv in ALT_CONFIGS.get(be, []):
+            out2 = os.path.join(wd, "out_%s_%s_alt" % (tag, be))
+            r2 = lib.run_tool(be, entry, out2, config=cfgv)
+            if r2["rc"] != 0:
+                rep.violation({"leg": "tool", "backend": be, "config": cfgv, "what": "tool failed"}, {"stderr": r2["stderr"][-1500:]})
+            elif refs[be] is not None:
+                alt = observe.symbol_refs(be, out2)
+                if alt != refs[be]:
+                    rep.violation({"leg": "refs", "backend": be, "config": cfgv, "what": "referenced symbols change with the configuration"},
+                                  {"only_default": sorted(refs[be] - alt)[:12], "only_with_config": sorted(alt - refs[be])[:12]})
     for n, c in batch:
         exp_all = set(concretise(s, n) for s in c["exported"].values())
         got_nm = set(s for s in nm if belongs(s, n))
